@@ -92,3 +92,21 @@ Definition str_case_ok (c : str_case) : bool :=
   let bs := unhex hx in
   let v := dec_string p (N.of_nat (length bs)) bs in
   bytes_eqb v (unhex d) && match g with None => true | Some x => bytes_eqb v (unhex x) end.
+
+(* ---- the Go attribute reader, integer branch (internal/core/attribute.go ReadValue, case DatatypeFixed, sizes 4 and 8):
+        values[i] = int32(byteOrder.Uint32(a.Data[offset:offset+4]))          (int64 / Uint64 for size 8)
+   with byteOrder := a.Datatype.GetByteOrder() since /repo 3d92c44 (go_attr_int_fixed, the code at HEAD); before that
+   commit binary.LittleEndian was hard-coded (go_attr_int_pinned).  In both versions the sign bit of the datatype is
+   not consulted: the result type is int32/int64 (pinned by TestAttributeReadValue_ScalarTypes/_ArrayTypes). *)
+Definition go_attr_int_pinned (o : order) (signed : bool) (size : N) (bs : bytes) : Z := dec_int LE true size bs.
+Definition go_attr_int_fixed (o : order) (signed : bool) (size : N) (bs : bytes) : Z := dec_int o true size bs.
+
+(* tie: the value Attribute.ReadValue returned for one integer element equals the transcription (also on the inputs
+   where the transcription differs from the specification, i.e. unsigned types) *)
+Definition attr_case : Type := order * bool * N * string * Z.
+Definition attr_case_ok (c : attr_case) : bool :=
+  let '(o, s, n, hx, g) := c in (go_attr_int_fixed o s n (unhex hx) =? g)%Z.
+
+(* the full C06 statement restricted to 32/64-bit integer attributes: the reader's value is the format's value *)
+Definition attr_int_full (reader : order -> bool -> N -> bytes -> Z) : Prop :=
+  forall o s n bs, byte_ok bs = true -> length bs = N.to_nat n -> (n = 4 \/ n = 8) -> reader o s n bs = dec_int o s n bs.
